@@ -29,7 +29,8 @@ TECHNIQUE = 'contracts + inductive invariants on the real Rabin solver loops, gh
 
 def _mk(fname, sh, moore, plus_one, nh, ng):
     h = cr.FUNCTIONS[fname]
-    params = dict(moore=moore, plus_one=plus_one, n_holds=nh, n_goals=ng)
+    params = dict(moore=moore, plus_one=plus_one, n_holds=nh, n_goals=ng,
+                  stale_primed_lists=(fname == 'solve_rabin_game'))
 
     def run():
         return harness.verify(h, sh, params)
